@@ -9,11 +9,12 @@ from ..core import AnalysisError, own_nodes, norm
 LEVEL_TEXT = ('static analysis by abstract interpretation of absolute_threshold / do_call on the real ASTs: (D1) for symbolic strictly increasing'
               ' threshold vectors of length k the extracted function cn(order position of log2) over the 2k+1 positions and NaN, chromosome class'
               " x reference sex x naming x ploidy 1..6, equals 'number of thresholds strictly below log2, rescaled by r/ploidy and truncated when"
-              " r != ploidy; ceil(r*2^v) above the last; r for NaN' -- exact for every real log2 because log2 is only compared; the default "
-              'thresholds are increasing and give 2 at log2 0 on a diploid autosome; (D2) cn1 + cn2 == cn as a term identity, cn1 is clipped into'
-              ' [0, cn], both are missing exactly where BAF is missing and cn > 0; (D3) one output slot per input row, no row dropped; a table '
-              'carrying its own baf column gets cn1 / cn2 also without a variants argument. Does not decide where ceil(r*2^log2) crosses integers'
-              ' numerically.')
+              " r != ploidy; ceil(r*2^v) above the last; r for NaN' -- exact for every real log2 because log2 is only compared -- on a table "
+              'whose row labels are not positions; the default thresholds are increasing and give 2 at log2 0 on a diploid autosome; (D2) cn1 + '
+              'cn2 == cn as a term identity, cn1 is clipped into [0, cn], both are missing exactly where BAF is missing and cn > 0; (D3) one '
+              'output slot per input row, no row dropped (row labels may repeat: masked cell stores go through the interpreted '
+              'GenomicArray.__setitem__); a table carrying its own baf column gets cn1 / cn2 also without a variants argument. Does not decide '
+              'where ceil(r*2^log2) crosses integers numerically.')
 TECHNIQUE = "abstract interpretation with order-position domain (log2 only compared against thresholds) and exact term identities"
 
 THR = "cnvlib.call.absolute_threshold"
